@@ -3,3 +3,4 @@ pub mod uow;
 pub mod agg;
 pub mod global;
 pub mod bridge;
+pub mod timers;
